@@ -675,7 +675,7 @@ def run_one(index, seed, runner, tier, opts):
         vtime += info["vtime"]
         for v in viols[:1]:
             k = v["index"]
-            case = {"files": {p: util.enc_content(c) for p, c in files.items()}, "ops": copy.deepcopy(ops[:k + 1]), "extra": {"history": h, "log_level": log_level}}
+            case = {"files": {p: util.enc_content(c) for p, c in files.items()}, "ops": copy.deepcopy(ops[:k + 1]), "extra": {"history": h, "log_level": log_level, "seed": seed}}
             violations.append({"case": case, "violation": v})
         if sample is None and h == 1:
             sample = {"run": index, "seed": seed, "history": [_op_brief(o) for o in ops], "n_rules": len(world[1]), "inputs": world[2] + world[3]}
@@ -695,6 +695,7 @@ def _op_brief(o):
 
 def evaluate(case, runner):
     runner.state = {}
-    viols, _info = check_history(case["files"], case["ops"], runner, log_level=(case.get("extra") or {}).get("log_level"))
+    ex_ = case.get("extra") or {}
+    viols, _info = check_history(case["files"], case["ops"], runner, seed=int(ex_.get("seed") or 0), log_level=ex_.get("log_level"))
     # the case is cut so that the violating operation is the last one
     return [v for v in viols if v["index"] == len(case["ops"]) - 1]
